@@ -443,6 +443,38 @@ def rule_r6(ck, prog, rule='C08.R6', cls='sdk::metrics::FilteredOrderedAttribute
                     ok = not data_calls or bool(sized)
                     ck.verdict(ok, rule, h, 'filter-key-full-view', n, 'key looked up by its full view' if ok else
                                'the filter looks the key up through string_view::data() only (strlen-terminated): a key view that is not NUL-terminated is filtered with the wrong bytes')
+    # the filter allows a key exactly when the allow-list contains it: decision table over the outcome of the lookup
+    from ..symb import returns_under_pins, T as _T, F as _F
+    for f in prog.functions('sdk::metrics::FilteringAttributesProcessor::isPresent'):
+        g = Graph(prog, f, inline=None, sync_lambdas=False)
+        looks = [n for n in f.nodes if comparison(f, n['i']) and any(f.nodes[i]['k'] == 'call' and strip_targs(f.nodes[i].get('c', '')).rsplit('::', 1)[-1] in ('find', 'count', 'contains')
+                                                                   and f.nodes[i].get('obj') is not None and access_path(f, f.nodes[i]['obj'])[:1] == ('this',) for i in f.subtree(n['i']))]
+        looks += [n for n in f.nodes if n['k'] == 'call' and strip_targs(n.get('c', '')).rsplit('::', 1)[-1] in ('count', 'contains') and n.get('obj') is not None and
+                  access_path(f, n['obj'])[:1] == ('this',) and not any(n['i'] in f.subtree(l['i']) for l in looks)]
+        cnt += 1
+        if not looks:
+            ck.inconclusive(rule, f, 'allowed-iff-in-allow-list', None, 'lookup in the allow-list not recognised')
+            continue
+
+        def found_truth(n, found):
+            c = comparison(f, n['i'])
+            if not c:
+                return found          # count() / contains() used as a truth value
+            op, a, b = c
+            zero = any(strip_casts(f, x).get('v') == 0 for x in (a, b))
+            if op in ('>', '>=', '<', '<=') and zero:
+                # count(k) > 0, 0 < count(k), count(k) >= 1 ...
+                lhs_is_lookup = strip_casts(f, b).get('v') == 0
+                return found if ((op in ('>',) and lhs_is_lookup) or (op in ('<',) and not lhs_is_lookup)) else (not found)
+            return found if op == '!=' else (not found if op == '==' else found)
+        res = {}
+        for found in (True, False):
+            res[found] = returns_under_pins(g, {n['i']: found_truth(n, found) for n in looks})
+        ok = res[True] == {_T} and res[False] == {_F}
+        ck.verdict(ok, rule, f, 'allowed-iff-in-allow-list', looks[0],
+                   'isPresent is true exactly when the key is found in the allow-list' if ok else
+                   'FilteringAttributesProcessor::isPresent answers %s for a key that is %s the allow-list: the filter lets keys through (or drops keys) that the view did not configure - e.g. an empty allow-list must remove every attribute' %
+                   (('true' if _T in res[False] else 'false'), 'not in' if _T in res[False] else 'in'))
     return cnt
 
 
